@@ -11,6 +11,10 @@ def run(tier, seed):
     q = tier == 'quick'
     fams = ['sloper', 'sloper', 'sloper', 'mono', 'invl', 'tee', 'mono2', 'two_g', 'dipole_h']
     zmat_cases(chk, rng, 48 if q else 2400, ('ideal',), families=fams)
+    # tapered wires standing on the ground plane: always tried by the mirror oracle
+    for c_ in zmat_probes(rng):
+        if c_['spec']['family'].startswith('probe-taper-grounded') and c_['spec']['media'] is not None:
+            chk.notes.setdefault('failing_specs', []).append(json.loads(json.dumps(c_['spec'])))
     nor = 24 if (q and not chk.broken) else (64 if q else 1600)
     run_oracle(chk, rng, nor, 'zor.c03', 'c03-oracle', ('ideal',), families=fams)
     return chk.finish()
